@@ -5,6 +5,11 @@ import DilithiumVerif.Driver.Forge
 namespace DV.Drv
 open DV
 
+/-- iterations granted to the signing loop: more than the u16 mask nonce allows (L·κ < 2^16, so the code itself stops —
+    with an overflow panic in the checked build — long before), so `none` (fuel exhausted) cannot be the model's answer
+    to a call the implementation completes -/
+def SIGN_FUEL : Nat := 70000
+
 def showChk {α} (f : α → String) : Chk α → String
   | .ok v => "ok " ++ f v
   | .error _ => "fault"
@@ -252,7 +257,7 @@ def answerSign (p : Params) (fn : String) (a : List String) : Option String :=
       some (showChk (fun r => sB r.1 ++ " " ++ sB r.2.1) (keypair p seed tape))
   | "signature", [msg, sk, rnd, tape] => do
       let msg ← B msg; let sk ← B sk; let tape ← B tape
-      some (showChk (fun r => showSig r.1) (signature p FUEL msg sk (rnd == "1") tape))
+      some (showChk (fun r => showSig r.1) (signature p SIGN_FUEL msg sk (rnd == "1") tape))
   | "verify", [sig, msg, pk] => do
       let sig ← B sig; let msg ← B msg; let pk ← B pk
       some (showChk boolStr (verify p sig msg pk))
@@ -272,14 +277,14 @@ def answerApi (p : Params) (fn : String) (a : List String) : Option String :=
   | "SecretKey::sign", [sk, msg, ctx, hedged, tape] => do
       let sk ← B sk; let msg ← B msg; let ctx ← optB ctx; let tape ← B tape
       if p.mldsa then
-        some (showChk (fun r => showSig r.1) (do let sk ← from_bytes p.skBytes sk; mldsa_sign p FUEL sk msg ctx (hedged == "1") tape))
+        some (showChk (fun r => showSig r.1) (do let sk ← from_bytes p.skBytes sk; mldsa_sign p SIGN_FUEL sk msg ctx (hedged == "1") tape))
       else
-        some (showChk showSig (do let sk ← from_bytes p.skBytes sk; dil_sign p FUEL sk msg))
+        some (showChk showSig (do let sk ← from_bytes p.skBytes sk; dil_sign p SIGN_FUEL sk msg))
   -- the request carries the message (used by the implementation) and its digest (used by the model: SHA-2 is external)
   | "SecretKey::prehash_sign", [sk, _msg, ctx, hedged, ph, tape, phm] => do
       let sk ← B sk; let phm ← B phm; let ctx ← optB ctx; let tape ← B tape; let ph ← phOf ph
       if ¬ p.mldsa then none else
-      some (showChk (fun r => showSig r.1) (do let sk ← from_bytes p.skBytes sk; mldsa_prehash_sign p FUEL sk phm ctx (hedged == "1") ph tape))
+      some (showChk (fun r => showSig r.1) (do let sk ← from_bytes p.skBytes sk; mldsa_prehash_sign p SIGN_FUEL sk phm ctx (hedged == "1") ph tape))
   | "PublicKey::verify", [pk, msg, sig, ctx] => do
       let pk ← B pk; let msg ← B msg; let sig ← B sig; let ctx ← optB ctx
       if p.mldsa then
